@@ -370,6 +370,10 @@ pub const C18: ScenDef = ScenDef {
         fail_reason_pct: 30,
         keep_session_pct: 65,
         cancels: false,
+        // a retained request that no longer fits a smaller Maximum Packet Size blocks the
+        // connection, but its handle must go on telling the truth (pending)
+        shrink_mps_pct: 30,
+        unconditional_limits_pct: 25,
         ..Profile::default()
     },
     nontrivial: |s, _| s.max_distinct_status >= 2 || s.failure_codes > 0,
